@@ -140,6 +140,13 @@ type AttachOpts struct {
 // AttachBegin performs steps 01-02 of client.attachDocument and returns the in-flight response.
 func (c *MClient) AttachBegin(ctx context.Context, docKey string, o AttachOpts) (*Att, *Inflight) {
 	d, stop := NewDoc(docKey)
+	return c.AttachBeginWith(ctx, d, stop, o)
+}
+
+// AttachBeginWith attaches the given Document instance (a fresh one, or - which
+// the lifecycle forbids - one that has been detached before).
+func (c *MClient) AttachBeginWith(ctx context.Context, d *document.Document, stop chan struct{}, o AttachOpts) (*Att, *Inflight) {
+	docKey := d.Key().String()
 	a := &Att{C: c, Doc: d, DisableGC: o.DisableGC, stop: stop}
 	d.SetActor(c.ID)
 	if !o.DisablePresence {
@@ -358,3 +365,6 @@ func (a *Att) DetachBeginNoClear(ctx context.Context) *Inflight {
 	a.C.rec(CallRec{Kind: "detach", Client: a.C.ID, Req: pb, Resp: pack})
 	return &Inflight{A: a, Req: pb, Resp: pack, Kind: "detach"}
 }
+
+// Stop returns the channel that stops the document's event drainer.
+func (a *Att) Stop() chan struct{} { return a.stop }
